@@ -82,7 +82,7 @@ func c08ProgOracle(e *progEnv, res *progStepResult) (sig, what string, descend b
 func replayC08(raw json.RawMessage) (string, error) {
 	var pp progPath
 	if json.Unmarshal(raw, &pp) == nil && len(pp.Syms) > 0 {
-		return progReplay(pp, progSeeds(true), progAlphabet(true), false, c08ProgOracle)
+		return progReplay(pp, progSeeds(true), progAlphabetInt(), false, c08ProgOracle)
 	}
 	var c cpuCase
 	if err := json.Unmarshal(raw, &c); err != nil {
@@ -116,7 +116,7 @@ func runC08(r *report.Run) {
 	if o.thorough {
 		depth = 4
 	}
-	syms, seeds := progAlphabet(true), progSeeds(true)
+	syms, seeds := progAlphabetInt(), progSeeds(true)
 	st, tr := progSearch(depth, seeds, syms, false, 0x9E3779B9, progVisitOf(r, 0x9E3779B9, c08ProgOracle))
 	r.Set("program_search", map[string]interface{}{"depth": depth, "alphabet": len(syms), "seed_states": len(seeds), "distinct_states": st, "steps_executed": tr})
 	r.Set("single_step_cases_by_sweep", counts)
